@@ -10,6 +10,7 @@ import (
 	"go/token"
 	"go/types"
 	"os"
+	"path/filepath"
 	"sort"
 	"strings"
 
@@ -115,8 +116,24 @@ func Load(o LoadOpts) (*World, error) {
 		if len(names) == 0 {
 			// no helper left: forward-substitute new locals
 			var subs []string
-			ov, subs = w.devirtualizeSeams(o.Overlay)
-			kind := "function variable that only ever holds its initial function is called directly: "
+			ov, subs = w.canonIncDec(o.Overlay)
+			kind := "x += 1 written x++ in "
+			if len(subs) == 0 {
+				ov, subs = w.restoreForClauses(o.Overlay)
+				kind = "an initialisation followed by a condition-only loop that ends in the step is a three-clause loop again in "
+			}
+			if len(subs) == 0 {
+				ov, subs = w.restoreRangeValues(o.Overlay)
+				kind = "a range by index whose first statement reads the element is a range by value again in "
+			}
+			if len(subs) == 0 {
+				ov, subs = w.restoreOrientation(o.Overlay)
+				kind = "a comparison written the other way round is turned back in "
+			}
+			if len(subs) == 0 {
+				ov, subs = w.devirtualizeSeams(o.Overlay)
+				kind = "function variable that only ever holds its initial function is called directly: "
+			}
 			if len(subs) == 0 {
 				ov, subs = w.inlineBracketHelpers(o.Overlay)
 				kind = "a helper that runs its function argument between an acquire and a deferred release is written out in "
@@ -128,6 +145,10 @@ func Load(o LoadOpts) (*World, error) {
 			if len(subs) == 0 {
 				ov, subs = w.splitIfInits(o.Overlay)
 				kind = "the initialiser of an if that calls an unknown helper is written as a statement of its own in "
+			}
+			if len(subs) == 0 {
+				ov, subs = w.sinkSingleUse(o.Overlay)
+				kind = "a new local holding a call result, used once by the next statement, is written in place in "
 			}
 			if len(subs) == 0 {
 				ov, subs = w.normalizeLocals(o.Overlay)
@@ -306,7 +327,13 @@ func loadOnce(o LoadOpts) (*World, error) {
 				}
 				fn := &Func{Name: name, Decl: fd, Obj: obj, Pkg: p, w: w}
 				if fd.Name.Name == "init" || fd.Name.Name == "_" {
-					name = fmt.Sprintf("%s#%d", name, fd.Pos())
+					// a stable name: the file it is declared in (and its rank there), not a position
+					base := filepath.Base(p.Fset.Position(fd.Pos()).Filename)
+					cand := fmt.Sprintf("%s#%s", name, base)
+					for i := 2; w.Funcs[cand] != nil; i++ {
+						cand = fmt.Sprintf("%s#%s.%d", name, base, i)
+					}
+					name = cand
 					fn.Name = name
 				}
 				w.Funcs[name] = fn
